@@ -475,7 +475,9 @@ var c17Values = []string{"", "0", "1", "-1", "2", "10", "abc", "50%", "~5", "~10
 	"minimal", "sh -c", "1,2", "1,2,3,4", "1,2,3,4,5", "10%,5", "3:bottom", "x:bottom", "[ab]+", "(", ".", "c17-history",
 	"start:reload(x)", "a:execute(", "a:put", "ctrl-a:put", "a:b", ",:up", "::up", "+:up", "a:+", "f1:unbind(x)", "f1:rebind()",
 	"f1:change-preview-window(up|x)", "f1:execute:a,b+c", "+{2}-/2", "<80(up)", "border-left", "~3", "cycle,wrap,nohidden",
-	"0.5", "1e3", "0x10", "５", "5+", "a+", "+5"}
+	"0.5", "1e3", "0x10", "５", "5+", "a+", "+5",
+	// every keyword of an all-optional value grammar ALONE (a value may consist of nothing but an optional keyword)
+	"border-native", "wrap", "nowrap", "hidden", "follow", "cycle", "border-none", "noborder", "~", "%", "alt-enter", "double-click"}
 
 func c17Spellings(name, v string) [][]string {
 	out := [][]string{{name, v}, {name, v, name, v}}
